@@ -12,7 +12,7 @@
    [serve_allowed r m p] the responses ServeHTTP may give depending on the order in
    which Go iterates its maps, [serve r m p] the first of them. *)
 From Coq Require Import List String Ascii Bool ZArith.
-From GZ Require Import C09.Model C09.Spec C09.Proofs.
+From GZ Require Import C09.Model C09.Spec C09.Proofs C09.ServerModel C09.ServerProofs.
 Import ListNotations.
 Open Scope string_scope.
 
@@ -207,3 +207,92 @@ Example ex_root :
   serve (router_of false false [mkReg "GET" "/:x" 0%Z]) "GET" "/" = RHandler 0%Z [("x", "")]
   /\ serve (router_of false false [mkReg "GET" "/:x" 0%Z; mkReg "GET" "/" 1%Z]) "GET" "/.." = RHandler 1%Z [].
 Proof. vm_compute. repeat split. Qed.
+
+(* ====================================================================== server level
+   rest.Server: AddRoutes/AddRoute with rest.WithPrefix (path.Join), groups, and
+   engine.bindRoutes at Start (ServerModel.v). *)
+
+(* What Start binds is exactly the list of prefixed routes, in order: if it succeeds the
+   router is [router_of] of that list (so EVERY theorem above applies with
+   regs := server_routes groups), every Handle call was accepted and the table is the list
+   of routes itself, each cleaned; otherwise Start died with the first rejection the route
+   list prescribes (duplicate after prefixing and cleaning, bad method, unrooted result). *)
+Theorem server_routes_are_prefixed_routes : forall nf na cors gs,
+  let regs := server_routes gs in
+  match server_start nf na cors gs with
+  | Started r =>
+    r = router_of nf (na || cors) regs /\
+    all_ok (reg_results [] regs) /\
+    table_of regs = map to_route regs
+  | StartFailed e =>
+    e <> RegOk /\
+    exists pre g post, regs = (pre ++ g :: post)%list /\
+      all_ok (reg_results [] pre) /\
+      reg_spec (table_of pre) (rmethod g) (rpath g) = e
+  end.
+Proof. exact L_server_routes_are_prefixed_routes. Qed.
+Print Assumptions server_routes_are_prefixed_routes.
+
+Theorem server_starts_iff_no_rejection : forall nf na cors gs,
+  (exists r, server_start nf na cors gs = Started r) <-> all_ok (reg_results [] (server_routes gs)).
+Proof. exact L_start_iff_all_ok. Qed.
+Print Assumptions server_starts_iff_no_rejection.
+
+(* a rooted prefix: the pattern the router sees is the cleaning of
+   (segments of the prefix ++ segments of the route path) *)
+Theorem prefixed_route_segments : forall gt p, p <> "" ->
+  clean_path (prefix_path (String slash gt) p) = Some (clean_segs (split gt ++ split p)).
+Proof. exact L_prefixed_segments. Qed.
+Print Assumptions prefixed_route_segments.
+
+(* the response case table of a started server, over the list of prefixed routes *)
+Theorem server_response_cases : forall nf na cors gs r m p segs resp,
+  server_start nf na cors gs = Started r ->
+  clean_path p = Some segs ->
+  In resp (serve_allowed r m p) ->
+  resp_ok (map to_route (server_routes gs)) nf (na || cors) m segs resp.
+Proof. exact L_server_allowed_cases. Qed.
+Print Assumptions server_response_cases.
+
+(* rest.WithCors() replaces the 405/Allow clause: OPTIONS is always 204 (a registered
+   OPTIONS route is never dispatched) and a would-be 405 is a 404 without Allow.  This is
+   the option's documented purpose; it is outside the property's quantifier (route tables on
+   the router with its default not-allowed behaviour) and is pinned here so that it cannot
+   change unnoticed. *)
+Theorem cors_replaces_405 : forall nf na gs r m p segs,
+  server_start nf na true gs = Started r ->
+  clean_path p = Some segs ->
+  let T := map to_route (server_routes gs) in
+  sserve true r "OPTIONS" p = SCors204 /\
+  (m <> "OPTIONS" -> no_own T m segs ->
+   (exists t, In t T /\ tm t <> m /\ matches (tpat t) segs) ->
+   sserve true r m p = SResp RNotFound).
+Proof. exact L_cors_behaviour. Qed.
+Print Assumptions cors_replaces_405.
+
+Definition ex_groups : list group :=
+  [ mkGroup (Some "/api") true [mkReg "GET" "/a/:x" 0%Z; mkReg "GET" "b" 1%Z; mkReg "POST" "/a/b/" 2%Z];
+    mkGroup None false [mkReg "GET" "/a/:x" 3%Z];
+    mkGroup (Some "/api/") true [mkReg "PUT" "//c/../d" 4%Z; mkReg "GET" "" 5%Z] ].
+
+Example ex_server_routes :
+  map (fun g => (rmethod g, rpath g)) (server_routes ex_groups) =
+  [("GET", "/api/a/:x"); ("GET", "/api/b"); ("POST", "/api/a/b"); ("GET", "/a/:x"); ("PUT", "/api/d"); ("GET", "/api")].
+Proof. vm_compute. reflexivity. Qed.
+
+Example ex_server_serves :
+  exists r, server_start false false false ex_groups = Started r /\
+    serve r "GET" "/api/a/1" = RHandler 0%Z [("x", "1")] /\
+    serve r "GET" "/a/7" = RHandler 3%Z [("x", "7")] /\
+    serve r "GET" "/api" = RHandler 5%Z [] /\
+    serve r "POST" "/api/a/1" = RNotAllowed ["GET"] /\
+    mw_expected true ex_groups 4%Z = [1000%Z; 2%Z] /\ mw_expected true ex_groups 3%Z = [1000%Z].
+Proof. eexists. vm_compute. repeat split. Qed.
+
+Example ex_server_duplicate_across_groups :
+  server_start false false false
+    [mkGroup (Some "/v1") false [mkReg "GET" "/a" 0%Z]; mkGroup (Some "/v1/") false [mkReg "GET" "a/" 1%Z]]
+  = StartFailed RegDuplicate
+  /\ server_start false false false [mkGroup (Some "v1") false [mkReg "GET" "/a" 0%Z]] = StartFailed RegInvalidPath.
+Proof. vm_compute. split; reflexivity. Qed.
+
